@@ -9,6 +9,7 @@ package main
 
 import (
 	"bytes"
+	"crypto/sha1"
 	"fmt"
 	"math/rand"
 	"os"
@@ -283,6 +284,74 @@ func (s *seeder) seedPacks(rp *repo, r *rand.Rand) []packSet {
 		}
 	}
 	return sets
+}
+
+// seedDeltaCycles adds hand-built, internally consistent pack+idx+rev triples
+// whose REF deltas form a cycle (an entry whose base id is its own id, and two
+// entries that name each other): every table is well-formed, only the delta
+// graph is not a DAG.
+func (s *seeder) seedDeltaCycles() {
+	be32 := func(v uint32) []byte { return []byte{byte(v >> 24), byte(v >> 16), byte(v >> 8), byte(v)} }
+	zdelta := []byte("x\x9ccddL\x04\x00\x00n\x00e") // zlib of the 4-byte delta 01 01 01 'a'
+	build := func(ids [][]byte, bases [][]byte) (pack, idx, rev []byte) {
+		var body bytes.Buffer
+		body.WriteString("PACK")
+		body.Write(be32(2))
+		body.Write(be32(uint32(len(ids))))
+		offs := make([]uint32, len(ids))
+		for i := range ids {
+			offs[i] = uint32(body.Len())
+			body.WriteByte(0x74) // REF_DELTA, size 4
+			body.Write(bases[i])
+			body.Write(zdelta)
+		}
+		sum := sha1.Sum(body.Bytes())
+		pack = append(body.Bytes(), sum[:]...)
+		var ib bytes.Buffer
+		ib.Write([]byte{0xff, 't', 'O', 'c'})
+		ib.Write(be32(2))
+		for b := 0; b < 256; b++ { // ids are given in ascending order
+			n := 0
+			for _, id := range ids {
+				if int(id[0]) <= b {
+					n++
+				}
+			}
+			ib.Write(be32(uint32(n)))
+		}
+		for _, id := range ids {
+			ib.Write(id)
+		}
+		for range ids {
+			ib.Write(be32(0))
+		}
+		for _, o := range offs {
+			ib.Write(be32(o))
+		}
+		ib.Write(sum[:])
+		isum := sha1.Sum(ib.Bytes())
+		idx = append(ib.Bytes(), isum[:]...)
+		var rb bytes.Buffer
+		rb.WriteString("RIDX")
+		rb.Write(be32(1))
+		rb.Write(be32(1))
+		for i := range ids { // ids were laid out in pack order
+			rb.Write(be32(uint32(i)))
+		}
+		rb.Write(sum[:])
+		rsum := sha1.Sum(rb.Bytes())
+		rev = append(rb.Bytes(), rsum[:]...)
+		return pack, idx, rev
+	}
+	a, b := bytes.Repeat([]byte{0xab}, 20), bytes.Repeat([]byte{0xcd}, 20)
+	p, x, r := build([][]byte{a}, [][]byte{a})
+	s.add("FuzzMmapPack", "hand-ref-delta-self-cycle", p, x, r)
+	s.add("FuzzPackfile", "hand-ref-delta-self-cycle", p, x)
+	s.add("FuzzPackParser", "hand-ref-delta-self-cycle", p)
+	p, x, r = build([][]byte{a, b}, [][]byte{b, a})
+	s.add("FuzzMmapPack", "hand-ref-delta-2-cycle", p, x, r)
+	s.add("FuzzPackfile", "hand-ref-delta-2-cycle", p, x)
+	s.add("FuzzPackParser", "hand-ref-delta-2-cycle", p)
 }
 
 // ------------------------------------------------------------------ index files
